@@ -224,11 +224,12 @@ class Marginal(Generic[R], SampleDistribution):
         choices: ChoiceMap = tr.get_choices()
         latent_choices = choices.filter(self.selection)
         key, sub_key = jax.random.split(key)
-        bwd_request = ~self.selection
-        weight = tr.project(sub_key, bwd_request)
         if self.algorithm is None:
+            weight = tr.project(sub_key, self.selection)
             return weight, latent_choices
         else:
+            bwd_request = ~self.selection
+            weight = tr.project(sub_key, bwd_request)
             target = Target(self.gen_fn, args, latent_choices)
             other_choices = choices.filter(~self.selection)
             Z = self.algorithm.estimate_reciprocal_normalizing_constant(
